@@ -18,7 +18,7 @@ class VerusResult:
         self.smt_ms = 0; self.total_ms = 0; self.cmd = ""; self.raw_err = ""; self.timed_out = False
         self.tool_failure = None
 
-def run(text, scratch, name, built=None, timeout=600, extra=(), multiple_errors=50):
+def run(text, scratch, name, built=None, timeout=600, extra=(), multiple_errors=50, tolerate_rlimit=False):
     os.makedirs(scratch, exist_ok=True)
     path = os.path.join(scratch, name + ".rs")
     open(path, "w").write(text)
@@ -76,12 +76,17 @@ def run(text, scratch, name, built=None, timeout=600, extra=(), multiple_errors=
     if vr.get("encountered-vir-error") or (R.rc != 0 and not R.diags and not R.compile_errors):
         if not R.compile_errors:
             R.tool_failure = "verus failed without a verification diagnostic: " + p.stderr[-1500:]
-    if any("Resource limit" in d.message or "rlimit" in d.message for d in R.diags):
+    rl = [d for d in R.diags if "Resource limit" in d.message or "rlimit" in d.message]
+    if rl and tolerate_rlimit:
+        # canary runs: after the (expected) canary failure Verus keeps looking for further errors in the same function and may
+        # run out of resources doing so; that says nothing about the canary, which is judged by its own diagnostic
+        R.diags = [d for d in R.diags if d not in rl]; R.rlimit_lines = [d.line for d in rl]
+    elif rl:
         R.tool_failure = "rlimit exceeded"
     return R
 
 _COMPILE_PAT = re.compile(r"(cannot find|mismatched types|not supported|unsupported|expected|The verifier does not yet support|no method named|unresolved|cannot use|is not allowed|must be|mode|trait bound)", re.I)
-_VERIF_PAT = re.compile(r"(postcondition not satisfied|precondition not satisfied|assertion failed|invariant not satisfied|possible arithmetic|possible division|decreases not satisfied|could not prove termination|index out of bounds|loop invariant|recommendation not met|failed precondition|possible bit shift|possible overflow|might panic|unreachable)", re.I)
+_VERIF_PAT = re.compile(r"(Resource limit|postcondition not satisfied|precondition not satisfied|assertion failed|invariant not satisfied|possible arithmetic|possible division|decreases not satisfied|could not prove termination|index out of bounds|loop invariant|recommendation not met|failed precondition|possible bit shift|possible overflow|might panic|unreachable)", re.I)
 
 def _is_compile_msg(msg):
     if _VERIF_PAT.search(msg): return False
